@@ -22,7 +22,11 @@ func RunC10A(t *testing.T) {
 	col.AddRule(CfgC10().Rule)
 	w := CfgC10().Weights
 	w.PoorPct = 0
+	allow := caseLimiter(0)
 	body := func(rt *rapid.T, ops []Op) {
+		if rt != nil && !allow() {
+			return
+		}
 		labels := map[string]int{}
 		if rt != nil {
 			h, _ := genLogK(rt, w, 10, 45, 20)
@@ -121,7 +125,11 @@ func RunC18A(t *testing.T) {
 	col.AddRule("A (transaction boundary, differential/metamorphic): logs generated with the C18 perturbation mix are delivered as signed zero-fee transactions through FinalizeBlock + Commit; the log is then executed again on a fresh application with every transaction that was rejected (code != 0) removed; after every block the complete module dump and every bank balance of the two executions must be identical (only account sequence numbers may differ).")
 	w := CfgC18().Weights
 	w.PoorPct = 20
+	allow := caseLimiter(0)
 	body := func(rt *rapid.T, ops []Op) {
+		if rt != nil && !allow() {
+			return
+		}
 		labels := map[string]int{}
 		if rt != nil {
 			h, _ := genLogK(rt, w, 10, 45, 30)
@@ -271,7 +279,11 @@ func RunC08A(t *testing.T) {
 	w := CfgC08().Weights
 	w.PoorPct = 0
 	w.PerturbPct = 4
+	allow := caseLimiter(0)
 	body := func(rt *rapid.T, ops []Op) {
+		if rt != nil && !allow() {
+			return
+		}
 		labels := map[string]int{}
 		if rt != nil {
 			h, _ := genLogK(rt, w, 10, 40, 70)
